@@ -323,8 +323,9 @@ func (d *Document) PrintValue(value Value, w io.Writer) (err error) {
 		}
 		content := d.Input.ByteSlice(d.StringValues[value.Ref].Content)
 		_, err = w.Write(content)
-		if isBlockString && bytes.HasSuffix(content, literal.QUOTE) && !bytes.HasSuffix(content, []byte(`\"""`)) {
-			// a block string whose content ends with a quote needs a line break before the closing quotes
+		if isBlockString && ((bytes.HasSuffix(content, literal.QUOTE) && !bytes.HasSuffix(content, []byte(`\"""`))) || bytes.HasSuffix(content, literal.BACKSLASH)) {
+			// a block string whose content ends with a quote, or with a backslash (which would turn the
+			// closing quotes into an escaped triple quote), needs a line break before the closing quotes
 			_, err = w.Write(literal.LINETERMINATOR)
 		}
 		_, err = w.Write(literal.QUOTE)
